@@ -72,6 +72,10 @@ def tasks(tier, seed=0):
     for m in vsaops.LIGHT_METHODS:
         out.append(task(M, "ob_light", f"light.{m}/sound", ["C24"], method=m, tier=tier))
     out.append(task(M, "ob_canary", "vsa.canaries/wrong-postconditions-fail", ["C24"], tier=tier))
+    # SolverVSA.is_true / is_false / satisfiable go through the cached Backend.is_true / is_false that every backend inherits: with the VSA
+    # backend's three-valued answers "not definitely true" must never be cached as "definitely false" (obligations shared with C10)
+    for wch in ("is_true", "is_false"):
+        out.append(task("vf.contracts.truth", "ob_backend_cache", f"truth.Backend.{wch}/cache-invariant", ["C10", "C24"], which=wch))
     from vf.props import C08
     out += C08.ite_step_tasks(tier, ["C24", "C08"])       # BackendVSA.convert evaluates excavate_ite(e), not e
     kl = sorted({l for f in common.load_findings()["findings"] for l in f.get("vsa_labels", [])})
